@@ -1,0 +1,19 @@
+//go:build verif
+
+package batchers
+
+import "io"
+
+// VerifSyncReader runs the scan loop of the file readers (syncReaderToBatcher) over an arbitrary
+// reader, so that the verification harness can drive it with scripted readers (chunking, stalls,
+// injected failures); OpenReaderToChan already does the same for the time-flushing loop
+func VerifSyncReader(sourceName string, reader io.Reader, batchSize, batchBuffer int) *Batcher {
+	out := newBatcher(batchBuffer)
+	go func() {
+		defer out.close()
+		out.startFileReading(sourceName)
+		out.syncReaderToBatcher(sourceName, reader, batchSize)
+		out.stopFileReading(sourceName)
+	}()
+	return out
+}
